@@ -402,6 +402,34 @@ def bool_operand_lane(ctx, rng, select, keys_fn, extra_case=None, profile=None):
     return n
 
 
+def nullable_key_lane(ctx, rng, select, keys_fn, extra_case=None, kinds=None):
+    """eq / ne between a NULLable column of every kind (GUID, date, string, integer, date-time, boolean) and a
+    literal, either operand order, plain and under not / not-and / not-or / or: a backend may build the negated
+    or the reversed comparison by another route than the plain one, and only rows holding NULL tell."""
+    cols = [("g", "guid", scalar.GUID_LITS[0]), ("dd", "date", "2020-01-01"), ("s", "str", "ab"), ("a", "int", "1"),
+            ("d", "datetime", "2020-01-01T00:00:00"), ("flag", "bool", "true")]
+    other = ("cmp", "eq", T.ident("b"), T.I(1))
+    n = 0
+    for col, kind, val in cols:
+        if kinds is not None and kind not in kinds:
+            continue
+        c, v = T.ident(col), T.lit(kind, val)
+        atoms = []
+        for op in ("ne", "eq"):
+            atoms += [("cmp", op, c, v), ("cmp", op, v, c)]
+        atoms += [("cmp", "in", c, T.lst(v)), ("cmp", "ne", c, ("lit", "null", "null")), ("cmp", "eq", c, ("lit", "null", "null"))]
+        for x in atoms:
+            for t in (x, ("un", "not", x), ("un", "not", ("bool", "and", x, other)), ("un", "not", ("bool", "or", other, x)),
+                      ("bool", "or", x, other), ("un", "not", ("un", "not", x)),
+                      ("bool", "and", ("un", "not", x), ("un", "not", other))):
+                n += 1
+                if not ctx.mine(n):
+                    continue
+                ctx.count("nullable_key_filters")
+                _judge(ctx, t, rng, select, keys_fn, "nullable-key:" + kind, True, 200, extra_case, None)
+    return n
+
+
 def in_list_shape_lane(ctx, rng, select, keys_fn, extra_case=None, profile=None):
     """in-lists whose items have a SHAPE a renderer may recognise - consecutive integers (any
     order, repeats), runs with one gap, two items, one item, halves - against operands that lie
